@@ -37,6 +37,8 @@ class ResponseHandler(BaseProtocol, DataQueue[tuple[RawResponseMessage, StreamRe
         DataQueue.__init__(self, loop)
 
         self._should_close = False
+        # The final (non-1xx) response of the current exchange was received.
+        self._final_response_seen = False
 
         self._payload: _Payload | None = None
         self._skip_payload = False
@@ -241,6 +243,7 @@ class ResponseHandler(BaseProtocol, DataQueue[tuple[RawResponseMessage, StreamRe
         max_headers: int = 128,
     ) -> None:
         self._skip_payload = skip_payload
+        self._final_response_seen = False
 
         self._read_timeout = read_timeout
 
@@ -322,6 +325,18 @@ class ResponseHandler(BaseProtocol, DataQueue[tuple[RawResponseMessage, StreamRe
             self._tail += data
             return
 
+        if (
+            data
+            and self._final_response_seen
+            and (self._payload is None or self._payload.is_eof())
+        ):
+            # Bytes after the end of the response, outside any exchange: they
+            # would be taken for (part of) the answer to the next request.
+            # Never hand this connection out again, also not from the pool.
+            self._should_close = True
+            if self.transport is not None:
+                self.transport.close()
+
         # parse http messages
         try:
             messages, upgraded, tail = self._parser.feed_data(data)
@@ -351,6 +366,8 @@ class ResponseHandler(BaseProtocol, DataQueue[tuple[RawResponseMessage, StreamRe
         for message, payload in messages:
             if message.should_close:
                 self._should_close = True
+            if message.code < 100 or message.code > 199:
+                self._final_response_seen = True
 
             self._payload = payload
 
